@@ -83,6 +83,12 @@ def sub_at(spec, path):
     return cur
 
 
+def parent_of(path):
+    """Path of the keeping node that holds the child slot `path` (() is the root)."""
+    path = tuple(path)
+    return path[:-1] if path[-1] == "cut" else path[:-2]
+
+
 def is_prefix(a, b):
     return len(a) <= len(b) and tuple(b[: len(a)]) == tuple(a)
 
@@ -98,7 +104,10 @@ def strategy(tier):
             spec = {"k": "Branch", "values": [spec, draw(gen.tree_specs(leaf_opts))]}
         pos = keep_positions(spec)
         mode = draw(st.sampled_from(("shared", "shared", "cycle", "control", "control")))
-        case = {"spec": spec, "mode": mode, "numpy": draw(st.booleans()), "templates": draw(st.sampled_from(("default", "explicit", "separate")))}
+        case = {"spec": spec, "mode": mode, "numpy": draw(st.booleans()), "templates": draw(st.sampled_from(("default", "explicit", "separate"))),
+                # a sub-tree may have been filled on its own (or unpickled) before it became part of the tree: its
+                # once-only flags are then already set when the root is filled for the first time
+                "prefill": draw(st.sampled_from(("none", "none", "object", "parent", "pickle"))), "prefill_at": draw(st.integers(0, 50))}
         crit = gen.critical_values(spec)
         case["rows"] = [[draw(gen.rows(crit, True, none_cats=False)), draw(st.sampled_from((1.0, 1.0, 2.0, 0.5)))] for _ in range(draw(st.integers(1, 4)))]
         if mode == "shared":
@@ -208,6 +217,17 @@ def check(case):  # noqa: PLR0912, PLR0915
         numpy_ok = _qbearing(spec)
         if case["numpy"] and not numpy_ok:
             case = dict(case, numpy=False)
+        if case.get("prefill", "none") != "none":
+            pos = keep_positions(spec)
+            sub = b.built[pos[case["prefill_at"] % len(pos)]] if pos else h
+            for r, w in rows:
+                sub.fill(r, w)
+            e0 = h.entries
+            attempt(h)  # must be accepted
+            attempt(h)
+            want = e0 + 2 * sum(w for _, w in rows if w > 0)
+            require(h.entries == want, "control-entries", f"a tree with a pre-filled sub-tree holds entries {h.entries!r} after two fills, expected {want!r}")
+            return {"nontrivial": False, "labels": labels + ["control-prefilled"]}
         attempt(h)  # any exception here is a violation (a tree without shared nodes must never be rejected)
         ref = model.evaluate(spec, rows)
         pol = norm.Policy(exact=ref.exact, scale=1.0 + ref.notes["maxabs"])
@@ -233,6 +253,23 @@ def check(case):  # noqa: PLR0912, PLR0915
             return {"nontrivial": False, "labels": labels + ["not-constructible"]}
         adjacent = first[:-1] == second[:-1]
         what = f"the object at {'/'.join(map(str, first))} also installed at {'/'.join(map(str, second))}"
+        pre = case.get("prefill", "none")
+        if pre == "object":
+            for r, w in rows:
+                b.built[first].fill(r, w)
+            what += " (the shared object was filled on its own before)"
+        elif pre == "parent" and parent_of(first) and not is_prefix(parent_of(first), second):
+            for r, w in rows:
+                b.built[parent_of(first)].fill(r, w)
+            what += f" (its parent {'/'.join(map(str, parent_of(first)))} was filled on its own before)"
+        elif pre == "pickle":
+            import pickle  # noqa: PLC0415
+
+            filled = b.built[first]
+            for r, w in rows:
+                filled.fill(r, w)
+            h = pickle.loads(pickle.dumps(h))  # pickling keeps the flags; sharing inside one pickle is preserved
+            what += " (the tree was unpickled after the shared object had been filled on its own)"
     else:
         b = Builder()
         h = b.build(spec)
